@@ -609,17 +609,31 @@ def run_atomicity(cases):
                 type("V", (P.Rule,), {}).load_grammar(v_, strict=(c["route"] == "load"))
             except Exception:  # noqa: BLE001
                 pass
+            addr_ = id(v_)
             v_ = None
             try:
                 type("W", (P.Rule,), {}).load_grammar('unrelated = "w" ; a load in between\r\n')
             except Exception:  # noqa: BLE001
                 pass
             gc.collect()
+        else:
+            addr_ = None
         cls = type("A", (P.Rule,), {})
         before = {k: (id(o), id(getattr(o, "definition", None))) for k, o in P.Rule._obj_map.items()}
         nbefore = len(P.Rule._obj_map)
         try:
             t_ = "".join([ch for ch in c["text"]])          # a fresh object, dropped right after the call
+            if addr_ is not None and len(c["text"]) == len(c["valid_text"]):
+                # same length as the valid text that was just let go: try to land on its address (what a long-running editor or
+                # server process does all day), keeping the misfits alive meanwhile so that the allocator offers other blocks
+                misfits_ = []
+                for _ in range(4000):
+                    if id(t_) == addr_:
+                        stats["same_address_as_valid_text"] = stats.get("same_address_as_valid_text", 0) + 1
+                        break
+                    misfits_.append(t_)
+                    t_ = "".join([ch for ch in c["text"]])
+                misfits_ = None
             if c["route"] == "create":
                 cls.create(t_)
             else:
